@@ -762,12 +762,13 @@ fn fmt_join(out: Option<Vec<(u64, (Kv, Option<Kv>))>>) -> String {
 
 /// pipe_wiring [par, builder, nl, (k, v)*, nr, (k, v)*]: both inputs are produced by `par` source replicas (item j by
 /// replica j % par); builder 0 `shuffle()`, 1 `broadcast()`, 2 `group_by(k).fold(count)`, 3 left join with
-/// `ship_hash().local_hash()`, 4 left join with `ship_broadcast_right().local_hash()`. Output: sorted `k:v` (0, 1),
+/// `ship_hash().local_hash()`, 4 left join with `ship_broadcast_right().local_hash()`, 5 `group_by_count(k)` keyed-joined
+/// with `group_by(k)` of the right input (`k:count-rv`). Output: sorted `k:v` (0, 1),
 /// `k:count` (2), `k:lv-rv` / `k:lv-_` (3, 4).
 fn pipe_wiring(args: &[i128]) -> Result<String, String> {
     let mut a = Args::new("pipe_wiring", args);
     let par = par_arg(&mut a)?;
-    let builder = a.ranged("builder", 0, 4)? as u8;
+    let builder = a.ranged("builder", 0, 5)? as u8;
     let nl = a.ranged("nl", 0, MAX_ITEMS)? as usize;
     let mut l: Vec<Kv> = Vec::new();
     for _ in 0..nl {
@@ -812,6 +813,28 @@ fn pipe_wiring(args: &[i128]) -> Result<String, String> {
                     .collect_vec();
                 env.execute_blocking();
                 fmt_join(out.get())
+            }
+            5 => {
+                // co-partitioning of a two-phase keyed aggregation with group_by: the keyed join forwards both sides
+                // without repartitioning, so it only finds the matches if both were routed by the same function of the key
+                let s2 = env.stream_par_iter(kv_source(r));
+                let counts = s1.group_by_count(|x: &Kv| x.0);
+                let out = counts
+                    .join(s2.group_by(|y: &Kv| y.0))
+                    .unkey()
+                    .collect_vec();
+                env.execute_blocking();
+                match out.get() {
+                    None => "NOOUTPUT".to_string(),
+                    Some(v) => {
+                        let mut toks: Vec<String> = v
+                            .iter()
+                            .map(|(k, (c, r))| format!("{}:{}-{}", k, c, r.1))
+                            .collect();
+                        toks.sort();
+                        fmt_list(&toks)
+                    }
+                }
             }
             _ => {
                 let s2 = env.stream_par_iter(kv_source(r));
